@@ -95,8 +95,8 @@ def check_scores(ctx, case, what, impl, exact, margins, exact_regime):
         ctx.disagree(case, {"what": what, "len_impl": len(impl), "len_model": len(exact)})
         return False
     for i, (a, b, mg) in enumerate(zip(impl, exact, margins)):
-        if a != a:
-            ctx.disagree(case, {"what": what, "i": i, "impl": "nan", "model": str(b)})
+        if a != a or abs(a) == float("inf"):
+            ctx.disagree(case, {"what": what, "i": i, "impl": repr(a), "model": str(b)})
             return False
         if exact_regime and isinstance(b, Fraction):
             ok = Fraction(a) == b or abs(Fraction(a) - b) <= abs(b) * U * 2
